@@ -34,6 +34,12 @@ def main(ctx):
                 ctx.trace_events += r["hwm"] - 1
                 continue
             sig = "c08:%s:%s" % (ev.get("ev"), t["fault"].split(":")[0] + ":" + t["fault"].split(":")[1])
+            if ev.get("ev") == "reopen" and ev.get("err") == "corrupt":
+                before = trace_lines(t["path"], 1, r["hwm"])
+                failed_commit = any(x.get("ev") == "txcommit" and x.get("err") == "fail" for x in before) or \
+                    any(x.get("ev") == "write" and x.get("big") == 1 and x.get("err") == "fail" for x in before)
+                if failed_commit and t["fault"].split(":")[1] == "manifest" and t["fault"].split(":")[0] in ("sync", "write"):
+                    sig = "c08:reopen:corrupt:manifest-edit-of-failed-then-discarded-transaction"
             what = "fault %s: line %d of %s not explained by KV.tla: %s (row: %s)" % (
                 t["fault"], r["hwm"], os.path.basename(t["path"]), line[:300], t["row"])
             rp = save_replay(ctx, "seed%d-%s" % (t["seed"], t["fault"].replace(":", "_")), [t["path"]],
